@@ -144,9 +144,12 @@ func inclusive(c *core.Ctx, rule, key string, g *cfgq.Graph, body ast.Node, x, l
 		cb := b
 		collect := func(root ast.Node, bd pat.Binds) {
 			ast.Inspect(root, func(n ast.Node) bool {
-				if be, ok := n.(*ast.BinaryExpr); ok && pat.Expr("_x + _b").Match(info, &ast.BinaryExpr{X: be.X, Op: token.ADD, Y: be.Y}, pat.Binds{"_x": bd["_x"], "_b": bd[map[string]string{"lower": "_lo", "upper": "_hi"}[sd.name]]}) != nil {
-					cmps = append(cmps, be)
-					cb = bd
+				if orig, ok := n.(*ast.BinaryExpr); ok {
+					be, _ := ast.Unparen(widened(info, orig)).(*ast.BinaryExpr) // int(slot) <= r compares slot
+					if be != nil && pat.Expr("_x + _b").Match(info, &ast.BinaryExpr{X: be.X, Op: token.ADD, Y: be.Y}, pat.Binds{"_x": bd["_x"], "_b": bd[map[string]string{"lower": "_lo", "upper": "_hi"}[sd.name]]}) != nil {
+						cmps = append(cmps, be)
+						cb = bd
+					}
 				}
 				return true
 			})
